@@ -244,10 +244,12 @@ def param_flags(case, real, layout):
     return 0
 
 
-def judge_request(state):
-    """None when the real encoder agrees with the state; otherwise (group keys, description, got)."""
+def judge_request(state, got=None):
+    """(None, got) when the real encoder agrees with the state; otherwise (group keys, got).
+    `got` may be supplied by the caller (a frame produced through the session layer)."""
     case, expect = state["c"], state["expect"]
-    got = encode_case(case)
+    if got is None:
+        got = encode_case(case)
     if expect == "frame":
         if got[0] == "frame":
             if list(got[1]) in state["alts"]:
@@ -261,6 +263,72 @@ def judge_request(state):
         must = sorted(n for n, m in state["reasons"] if m)      # frame-level options are not specific to a message kind
         return [("not-rejected", "any" if n == "custom_payload" else case["kind"], n) for n in must], got
     return None, got                             # "open": recorded by the caller, not judged
+
+
+# ---- sequences through the session layer (WireRequests.tla, Session action)
+
+_sessions = {}
+
+
+def sim_session(pv):
+    """a real Session over the simulation substrate, speaking protocol version pv (no sockets, no threads)"""
+    if pv not in _sessions:
+        from harness.sim.simcluster import SimWorld, FakeNode, make_cluster
+        w = SimWorld()
+        w.add_node(FakeNode("10.0.0.1", versions=(pv,)))
+        cluster = make_cluster(w, ["10.0.0.1"], protocol_version=pv, inline=True)
+        session = cluster.connect(wait_for_all_pools=True)
+        session.use_client_timestamp = False          # the specification's session requests no timestamp
+        _sessions[pv] = (cluster, session)
+    return _sessions[pv][1]
+
+
+def close_sessions():
+    for cluster, _ in _sessions.values():
+        try:
+            cluster.shutdown()
+        except Exception:
+            pass
+    _sessions.clear()
+
+
+def _payload(pairs, proto):
+    return {text(a): wire_value(b, proto) for a, b in pairs} if pairs else None
+
+
+def make_statement(seq, case):
+    """the ONE statement object of a sequence: consistency ONE, fetch size 5000, its own custom payload"""
+    proto = repo_import("cassandra.protocol")
+    q = repo_import("cassandra.query")
+    own = _payload(seq["ownp"], proto)
+    o = case["o"]
+    if seq["stmt"] == "simple":
+        return q.SimpleStatement(text(o["query"]), consistency_level=o["cl"], fetch_size=5000, custom_payload=own)
+    if seq["stmt"] == "bound":
+        rm = opt(o["rmid"])
+        ps = q.PreparedStatement(column_metadata=[], query_id=bytes(o["id"]), routing_key_indexes=None, query="q", keyspace=None,
+                                 protocol_version=case["pv"], result_metadata=[], result_metadata_id=None if rm is None else bytes(rm))
+        ps.custom_payload = own
+        ps.consistency_level = o["cl"]
+        ps.fetch_size = 5000
+        return ps                                     # bound anew for every execution, as applications do
+    b = q.BatchStatement(consistency_level=o["cl"], custom_payload=own)
+    for s in o["queries"]:
+        b.add(q.SimpleStatement(text(s["q"])))
+    return b
+
+
+def session_frame(statement, state):
+    """execute step of a sequence: Session._create_response_future(statement, per-call payload) -> the frame it would send"""
+    proto = repo_import("cassandra.protocol")
+    case = state["c"]
+    try:
+        session = sim_session(case["pv"])
+        stmt = statement.bind(()) if hasattr(statement, "bind") else statement
+        fut = session._create_response_future(stmt, None, False, _payload(case["seq"]["callp"], proto), 10.0)
+        return ("frame", proto.ProtocolHandler.encode_message(fut.message, case["fo"]["stream"], case["pv"], None, False))
+    except Exception as ex:
+        return ("raised", type(ex).__name__)
 
 
 # ------------------------------------------------------------------ C04: responses
